@@ -35,6 +35,7 @@ type Outcome struct {
 	Known      string // non-empty together with Fail: id of the known finding that explains it
 	Evals      int    // executions of library code performed for this case (default 1)
 	Skip       bool   // case lies outside the property's domain; not counted at all
+	ReplayCase any    // optional: a more specific case (e.g. with the failing choice sequence) to store in the replay file
 }
 
 // OK is the usual outcome.
@@ -267,6 +268,9 @@ func Clause[T any](r *Run, name string, o Opts, gen func(emit func(T) bool), che
 					if out.Fail != "" {
 						if len(s.viol) < 64 {
 							b, _ := json.Marshal(it.c)
+							if out.ReplayCase != nil {
+								b, _ = json.Marshal(out.ReplayCase)
+							}
 							s.viol = append(s.viol, violation{Clause: name, Seq: it.seq, Case: b, Fail: out.Fail, Known: out.Known})
 						}
 						if out.Known == "" {
